@@ -608,6 +608,23 @@ func (t *Tree) link(countsForRule *[TypeLast]uint, n *node, counts *[TypeLast]ui
 	}
 }
 
+// printsNothing tests whether no code at all is emitted for an expression: an
+// empty literal, or a sequence of such.
+func printsNothing(n *node) bool {
+	switch n.GetType() {
+	case TypeNil, TypeAction, TypeComment, TypeCommit:
+		return true
+	case TypeSequence:
+		for element := range n.Iterator() {
+			if !printsNothing(element) {
+				return false
+			}
+		}
+		return true
+	}
+	return false
+}
+
 func (t *Tree) Compile(file string, args []string, out io.Writer) (err error) {
 	t.AddImport("fmt")
 	if t.Ast {
@@ -1201,12 +1218,9 @@ func (t *Tree) Compile(file string, args []string, out io.Writer) (err error) {
 			elements[0].SetParentMultipleKey(n.ParentMultipleKey())
 			for _, element := range elements {
 				last := compile(element, ko)
-				switch element.GetType() {
-				case TypeNil, TypeAction, TypeComment, TypeCommit:
-					/* nothing was printed: what came before still ends the text */
-				default:
+				if !printsNothing(element) {
 					labelLast = last
-				}
+				} /* else nothing was printed: what came before still ends the text */
 			}
 		case TypePeekFor:
 			ok := label
